@@ -209,6 +209,28 @@ class G:
         hit("q"); return self.d + 100
 ''', sources={"a": "int", "b": "int"}, armable=True,
         derived={"d": (["a"], None, "attr"), "p": (["a"], lambda s: s["a"] * 2, "cached"), "q": (["d"], lambda s: s["d"] + 100, "cached")}),
+    "failing_factory_chain": dict(src='''
+FAIL = {"on": False, "skip": 0}
+def fac():
+    hit("fac")
+    if FAIL["on"]:
+        if FAIL["skip"] > 0:
+            FAIL["skip"] -= 1
+        else:
+            raise RuntimeError("default factory fails")
+    return 0
+
+@spec_class
+class G:
+    a: int = 1
+    b: int = 10
+    @spec_property(invalidated_by=["a"])
+    def rows(self):
+        hit("rows"); return self.a + 1
+    d: int = Attr(default_factory=fac, invalidated_by=["rows"])
+    e: int = Attr(default_factory=fac, invalidated_by=["rows"])
+''', sources={"a": "int", "b": "int"}, armable=True, arm_skips=(0, 1),
+        derived={"rows": (["a"], lambda s: s["a"] + 1, "uncached"), "d": (["rows"], None, "attr"), "e": (["rows"], None, "attr")}),
     "post_init_fill": dict(src='''
 @spec_class
 class G:
@@ -353,6 +375,10 @@ def ops_for(graph):
     if g.get("armable"):
         # a mutation that fails while its dependants are being reset (the dependant's default_factory raises)
         ops += [["set_armed", "a", 5], ["with_armed", "a", 6, True], ["with_armed", "a", 6, False]]
+        for k in g.get("arm_skips", ()):
+            if k:
+                # the k+1-th re-default fails: the dependants re-defaulted before it must be put back, too
+                ops += [["set_armed", "a", 5, k], ["with_armed", "a", 6, True, k]]
     ops += [["reset", True], ["reset", False], ["deepcopy"]]
     return ops
 
@@ -471,6 +497,8 @@ def apply(ns, obj, ref, op):
             return obj, r2, ("value", None), "should_have_raised"
         elif name in ("set_armed", "with_armed"):
             ns["FAIL"]["on"] = True
+            if "skip" in ns["FAIL"]:
+                ns["FAIL"]["skip"] = (op[3] if name == "set_armed" and len(op) > 3 else op[4] if name == "with_armed" and len(op) > 4 else 0)
             try:
                 if name == "set_armed":
                     setattr(obj, s, op[2])
